@@ -350,6 +350,12 @@ def fixed_programs():
         {"fn": "isconstant", "args": [P1], "kw": {}, "extra": True}, {"fn": "todict", "args": [P1], "kw": {}, "extra": True},
         {"fn": "tonumpy", "args": [{"$p": {"names": ["q0"], "shape": [2], "kind": "i", "retain": False, "terms": [[[0], [3, 4]]]}}], "kw": {}, "extra": True},
     ]
+    # construction without names: the exponent columns are q0, q1, ... by position, whatever is dropped later
+    for how in ("dict", "attributes", "from_attributes", "clean"):
+        progs.append({"fn": "construct-unnamed", "args": [], "extra": True,
+                      "kw": {"rows": [[0, 1], [0, 2]], "coefs": [3, 1], "how": how}})
+        progs.append({"fn": "construct-unnamed", "args": [], "extra": True,
+                      "kw": {"rows": [[1, 0, 0], [0, 0, 2], [0, 0, 0]], "coefs": [2, 5, 1], "how": how}})
     return progs
 
 
